@@ -145,9 +145,10 @@ def plan(seed, tier="quick", index=0):
 # --------------------------------------------------------------------------- one execution
 def _block(seed, b, i, size):
     if (seed + 7 * b + i) % 9 == 0 and size >= 8:
-        # a block whose bytes look like the start of a record (magic + plausible length)
-        head = bytes.fromhex("f9beb4d9") + (size // 2).to_bytes(4, "little")
-        return (head * (size // 8 + 1))[:size]
+        # a block whose bytes look exactly like a complete record of this network
+        # (magic + the length of what follows), as when a record is copied out of another file
+        magic = MAGICS[sorted(MAGICS)[(seed >> 3) % 3]] if (seed >> 5) % 2 else _CUR_MAGIC[0]
+        return magic + (size - 8).to_bytes(4, "little") + bytes((j * 37 + i) & 255 for j in range(size - 8))
     if (seed + 7 * b + i) % 9 == 1:
         return bytes(size)
     out = bytearray()
@@ -159,6 +160,9 @@ def _block(seed, b, i, size):
     return bytes(out[:size])
 
 
+_CUR_MAGIC = [b"\xf9\xbe\xb4\xd9"]  # magic of the scenario being executed (for record-like block contents)
+
+
 class Exec:
     """One execution of a history under one fault plan."""
 
@@ -168,6 +172,7 @@ class Exec:
         self.faults = Counters()
         self.viols = []
         self.magic = MAGICS[sc["network"]]
+        _CUR_MAGIC[0] = self.magic
         self.root = "/simfs-%x" % (sc["seed"] & 0xFFFFFF)
         nested = sc["init"] == "missing-nested"
         self.datadir = self.root + ("/a/b/" if nested else "/") + sc.get("dirname", "blocks")
